@@ -277,8 +277,9 @@ func drawC16(t *rapid.T) C16Case {
 		MaxActions: rapid.SampledFrom([]int{8, 15, 30, 45}).Draw(t, "maxActions"),
 		Accruals:   rapid.IntRange(0, 2).Draw(t, "accruals") == 0,
 		Assertions: rapid.Bool().Draw(t, "assertions"), Closes: true, Perf: rapid.Bool().Draw(t, "perf"),
-		Prices: 1,
-		MaxDec: rapid.SampledFrom([]int{2, 4, 8}).Draw(t, "maxDec"),
+		Prices:    1,
+		MaxDec:    rapid.SampledFrom([]int{2, 4, 8}).Draw(t, "maxDec"),
+		WideDates: true,
 	}
 	j := gen.GenJournal(t, cfg)
 	if c16OpenMirrors && rapid.Bool().Draw(t, "openMirrors") {
